@@ -31,8 +31,10 @@ class BayesianEstimator(ParameterEstimator):
                     f"Bayesian Parameter Estimation works only on models with all observed variables. Found latent variables: {model.latents}"
                 )
 
-            if isinstance(model, DAG):
+            if not isinstance(model, BayesianNetwork):
+                nodes = list(model.nodes())
                 model = BayesianNetwork(model.edges())
+                model.add_nodes_from(nodes)
 
         super(BayesianEstimator, self).__init__(model, data, **kwargs)
 
